@@ -5,6 +5,7 @@ import (
 	"math"
 	"reflect"
 	"regexp"
+	"strings"
 	"time"
 
 	ucfg "github.com/elastic/go-ucfg"
@@ -66,11 +67,13 @@ const (
 	wPtrStruct
 	wStructInline
 	wMapInline
+	wPtrSliceNil // a non-nil pointer to a nil slice
+	wPtrMapNil   // a non-nil pointer to a nil map
 	numC06Wrappers
 )
 
 func (w c06Wrapper) String() string {
-	return [...]string{"T", "*T", "[]T(nil)", "[]T{}", "[]T{v}", "[]T{v,zero}", "[2]T{v,zero}", "map[string]T(nil)", "map[string]T{}", "map[string]T{k:v}", "map[string]T{k:v,j:zero}", "[]*T{&v}", "struct{X T}", "*struct{X T}", "struct{X T} inline", "map[string]T inline"}[w]
+	return [...]string{"T", "*T", "[]T(nil)", "[]T{}", "[]T{v}", "[]T{v,zero}", "[2]T{v,zero}", "map[string]T(nil)", "map[string]T{}", "map[string]T{k:v}", "map[string]T{k:v,j:zero}", "[]*T{&v}", "struct{X T}", "*struct{X T}", "struct{X T} inline", "map[string]T inline", "&[]T(nil)", "&map[string]T(nil)"}[w]
 }
 
 func ptrTo(v reflect.Value) reflect.Value {
@@ -118,6 +121,10 @@ func (w c06Wrapper) wrap(v reflect.Value) (out reflect.Value, inline bool) {
 			m.SetMapIndex(reflect.ValueOf("j"), zeroLike(v))
 		}
 		return m, w == wMapInline
+	case wPtrSliceNil:
+		return ptrTo(reflect.Zero(reflect.SliceOf(t))), false
+	case wPtrMapNil:
+		return ptrTo(reflect.Zero(reflect.MapOf(reflect.TypeOf(""), t))), false
 	case wSlicePtr:
 		s := reflect.MakeSlice(reflect.SliceOf(reflect.PtrTo(t)), 1, 1)
 		s.Index(0).Set(ptrTo(v))
@@ -218,6 +225,10 @@ func c06Norm(v reflect.Value) interface{} {
 	case reflect.Ptr, reflect.Interface:
 		if v.IsNil() {
 			return nil
+		}
+		if k := v.Elem().Kind(); v.Kind() == reflect.Ptr && (k == reflect.Slice || k == reflect.Map) && v.Elem().Len() == 0 {
+			// the pointer itself survives: a pointer to an empty (or nil) collection is not a nil pointer
+			return "&empty"
 		}
 		return c06Norm(v.Elem())
 	case reflect.Slice, reflect.Array:
@@ -334,7 +345,7 @@ func c06Space(name string, depth int, reduced bool) *core.Space {
 	if depth >= 2 {
 		for a := c06Wrapper(1); a < numC06Wrappers; a++ {
 			for b := c06Wrapper(1); b < numC06Wrappers; b++ {
-				if a == wStructInline || a == wMapInline || a == wSliceNil || a == wSliceEmpty || a == wMapNil || a == wMapEmpty {
+				if a == wStructInline || a == wMapInline || a == wSliceNil || a == wSliceEmpty || a == wMapNil || a == wMapEmpty || a == wPtrSliceNil || a == wPtrMapNil {
 					continue // inner wrapper must carry the value
 				}
 				wsets = append(wsets, []c06Wrapper{a, b})
@@ -510,21 +521,38 @@ func c06TagLayouts() *core.Space {
 			}
 			pi := core.Guard(func() {
 				val := build(l)
-				opts := []ucfg.Option{ucfg.PathSep(".")}
-				cfg := ucfg.New()
-				if err := cfg.Merge(val.Interface(), opts...); err != nil {
-					res = core.Fail("layouts", "MERGE-REJECTED "+sig, fmt.Sprintf("Merge(%+v): %v", val.Interface(), err))
-					return
+				// the same struct type goes round under changing path options: dotted tags are
+				// plain names without a separator, paths with one, names again, paths under other
+				// index options - every trip is the identity
+				trips := []struct {
+					name string
+					opts []ucfg.Option
+				}{
+					{"no separator", nil},
+					{"PathSep(\".\")", []ucfg.Option{ucfg.PathSep(".")}},
+					{"no separator again", nil},
+					{"PathSep(\".\") + MaxIdx(0) + EscapePath", []ucfg.Option{ucfg.PathSep("."), ucfg.MaxIdx(0), ucfg.EscapePath()}},
+					{"PathSep(\".\") again", []ucfg.Option{ucfg.PathSep(".")}},
 				}
-				back := reflect.New(val.Type())
-				if err := cfg.Unpack(back.Interface(), opts...); err != nil {
-					res = core.Fail("layouts", "UNPACK-FAILED "+sig, fmt.Sprintf("value %+v: %v", val.Interface(), firstLine(err.Error())))
-					return
-				}
-				w, g := c06Norm(val), c06Norm(back.Elem())
-				if !reflect.DeepEqual(w, g) {
-					res = core.Fail("layouts", "NOT-IDENTITY "+sig, fmt.Sprintf("original %+v came back as %+v", val.Interface(), back.Elem().Interface()))
-					return
+				for _, trip := range trips {
+					if strings.Contains(trip.name, "MaxIdx(0)") && strings.Contains(sig, "arr.1.d") {
+						continue // (arr.1.d would be a name under MaxIdx(0): another layout of settings)
+					}
+					cfg := ucfg.New()
+					if err := cfg.Merge(val.Interface(), trip.opts...); err != nil {
+						res = core.Fail("layouts", "MERGE-REJECTED "+sig, fmt.Sprintf("%s: Merge(%+v): %v", trip.name, val.Interface(), err))
+						return
+					}
+					back := reflect.New(val.Type())
+					if err := cfg.Unpack(back.Interface(), trip.opts...); err != nil {
+						res = core.Fail("layouts", "UNPACK-FAILED "+sig, fmt.Sprintf("%s: value %+v: %v", trip.name, val.Interface(), firstLine(err.Error())))
+						return
+					}
+					w, g := c06Norm(val), c06Norm(back.Elem())
+					if !reflect.DeepEqual(w, g) {
+						res = core.Fail("layouts", "NOT-IDENTITY "+sig, fmt.Sprintf("%s: original %+v came back as %+v", trip.name, val.Interface(), back.Elem().Interface()))
+						return
+					}
 				}
 				res.Nontrivial = true
 				res.Outcome = fmt.Sprintf("fields=%d", len(l))
